@@ -122,11 +122,13 @@ class World:
                 answers.add(("cli-broken", r["rc"]))
                 continue
             mine = []
-            for code, msg, path, line, col in core.parse_cli_diags(r["err"]):
-                if code in IGNORED_CODES or path is None:
+            for code, msg, sections in core.parse_cli_sections(r["err"]):
+                if code in IGNORED_CODES:
                     continue
-                if os.path.basename(path) == self.fname[u]:
-                    mine.append((code, line - 1, col - 1))
+                # a diagnostic whose labels lie in several files is drawn, and published, once per file
+                for path, line, col in sections:
+                    if os.path.basename(path) == self.fname[u]:
+                        mine.append((code, line - 1, col - 1))
             answers.add(tuple(sorted(mine)))
         self.cli_cache[key] = answers
         return answers
@@ -209,16 +211,14 @@ def check_history(world, history, res, tag, versions="increasing"):
                                   {"diagnostic": diag_key(d_), "text_there": lines_u[st_["line"]][st_["character"]:][:20]}, case)
                     ok = False
             if sum(1 for v_ in state.values() if "SharedName" in v_) > 1:
-                # which of the two declarations is called the duplicate depends on the hash order of the project's files
-                # (recorded as C11-one-error-reported): only the ground truth above is demanded in such states
                 res.count("steps-shared-name-both")
-                # ... and that both documents are told: the diagnostic is drawn in both files by `check`
+                # both documents are told: the diagnostic is drawn in both files by `check`
                 if "SharedName" in text and not any(d_.get("code") in ("P0019", "P0020") for d_ in mine[0]["params"]["diagnostics"]) \
                         and all("SharedName" in v_ or classify(world, k_, v_) == "valid" for k_, v_ in state.items()):
                     res.violation("differs-from-check", "shared-name-not-reported:" + names,
                                   {"published": got}, case)
                     ok = False
-                continue
+                    continue
             ref = world.reference(dict(state), u)
             if len(ref) > 1:
                 res.violation("history-dependent", "unstable-reference:" + names,
@@ -241,6 +241,11 @@ def check_history(world, history, res, tag, versions="increasing"):
         s.shutdown(5.0)
         s.kill()
     return ok
+
+
+def diag_sig(d):
+    """code and where every label points (file, start, end)"""
+    return str((d.get("code"), [(l.get("file"), l.get("start"), l.get("end")) for l in [d.get("primary") or {}] + list(d.get("secondary") or [])]))
 
 
 def classify(world, u, text):
@@ -380,8 +385,11 @@ def project_shard(shard_i, nshards, payload):
             cb = sorted(d["code"] for d in b.get("diags", []))
             if bool(a.get("ok")) != bool(b.get("ok")):
                 res.violation("history-dependent", "project:verdict", {"after_history": ca, "fresh": cb}, case)
-            elif n_faulty <= 1 and set(ca) != set(cb):
+            elif ca != cb:
                 res.violation("history-dependent", "project:codes", {"after_history": ca, "fresh": cb}, case)
+            elif sorted(map(diag_sig, a.get("diags", []))) != sorted(map(diag_sig, b.get("diags", []))):
+                res.violation("history-dependent", "project:labels", {"after_history": sorted(map(diag_sig, a.get("diags", [])))[:6],
+                                                                       "fresh": sorted(map(diag_sig, b.get("diags", [])))[:6]}, case)
             else:
                 res.distinct.add(core.key_of("proj", i))
     finally:
